@@ -79,6 +79,13 @@ def run(rep, tier, seed):
             m = "".join(toks[:i] + toks[i + 1:])
             if m not in seen:
                 seen.add(m); texts.append(m); origin.append("token-deleted-test-program")
+    # comments whose text is only partly valid rich text (an unclosed link, emphasis, code span, eval, ...), at the start of the
+    # text, behind code and on later lines: the report ranges of the inner re-parse must still lie within the source
+    for op in ["[", "*", "`", "{{", "{", "_", "~", "**", "(", "$$", "^", "<", "![", "[^", "\"", "|"]:
+        for m in (f"-- abc {op}d", f"x := 1 -- total {op}oops", f"x := 1\n-- see {op}this", f"y := 2\n\n-- a {op}b c\nz := 3",
+                  f"a\nbb\n-- see [link]({op}", f"```mech\nx := 1 -- {op}\n```"):
+            if m not in seen:
+                seen.add(m); texts.append(m); origin.append("half-valid-comment")
     # every ordered PAIR of concrete alphabet members, glued and space-separated (the class strings above rotate members)
     members = sorted({m for ms in TOK.values() for m in ms})
     for a in members:
